@@ -1050,10 +1050,16 @@ class mulgrid(object):
         if isinstance(oldcolname, str) and isinstance(newcolname, str):
             oldcolname, newcolname = [oldcolname], [newcolname]
         try:
-            for olditem, newitem in zip(oldcolname, newcolname):
-                i = self.columnlist.index(self.column[olditem])
-                self.columnlist[i].name = newitem
-                self.column[newitem] = self.column.pop(olditem)
+            # (look up and remove all the old names before entering the new ones,
+            # as the new names may be a permutation of the old ones)
+            cols = [self.columnlist[self.columnlist.index(self.column[olditem])]
+                    for olditem in oldcolname]
+            for olditem in oldcolname: self.column.pop(olditem)
+            for col, newitem in zip(cols, newcolname):
+                col.name = newitem
+                self.column[newitem] = col
+            self.connection = dict([((con.column[0].name, con.column[1].name), con)
+                                    for con in self.connectionlist])
             self.setup_block_name_index()
             self.setup_block_connection_name_index()
             return True
